@@ -15,6 +15,13 @@ PATHS = ['/', '/cells', '/cells/*/id', '/nbformat', '/cells/*/cell_type', '/nbfo
          '/cells/*/attachments', '/cells/*/outputs']
 
 
+@vlib.classifier('merge-crash-site')
+def _cls_site(data, finding):
+    """exception class and the two innermost functions of the traceback, under the named output strategy"""
+    return (data.get('kind') == 'merge-raises' and data.get('site') == finding['param']['site']
+            and data.get('strategy', [None] * 3)[2] in finding['param']['output_strategy'])
+
+
 def extract_strategy_tables():
     from nbdime.merging.notebooks import notebook_merge_strategies
     rows = []
@@ -70,11 +77,11 @@ def run(ctx):
     except Exception as e:
         note = 'extractor failed: %r' % (e,)
     rng = ctx.rng
-    ntriples = 40 if ctx.tier == 'quick' else 500
+    ntriples = 150 if ctx.tier == 'quick' else 1500
     combos = mergelib.all_combos()
     for t in range(ntriples):
         b, l, r, kinds = gen_nb.any_triple(rng, minor_change=rng.random() < 0.2)
-        chosen = mergelib.covering_combos(rng, 9) if ctx.tier == 'quick' and t % 5 == 0 else (rng.sample(combos, 4) if ctx.tier == 'quick' else combos if t % 10 == 0 else rng.sample(combos, 30))
+        chosen = mergelib.covering_combos(rng, 9) if ctx.tier == 'quick' and t % 15 == 0 else ([mergelib.Args('inline')] + rng.sample(combos, 2) if ctx.tier == 'quick' else combos if t % 10 == 0 else rng.sample(combos, 30))
         for a in chosen:
             mode = mergelib.RENDERERS[(t + len(a.key()[1] or '')) % 3] if ctx.tier == 'quick' else None
             for md in ([mode] if mode else mergelib.RENDERERS):
@@ -87,7 +94,7 @@ def run(ctx):
                 ctx.case(canon(b) + canon(l) + canon(r) + json.dumps(a.key()) + md, res[0] != 'ok' or bool(res[2]))
                 if res[0] != 'ok':
                     ctx.violation('merge aborted under %s with %s: %s' % (a.key(), md, res[2]),
-                                  {'kind': 'merge-raises', 'b': enc(b), 'l': enc(l), 'r': enc(r), 'strategy': a.key(), 'helper': md, 'msg': res[2]})
+                                  {'kind': 'merge-raises', 'b': enc(b), 'l': enc(l), 'r': enc(r), 'strategy': a.key(), 'helper': md, 'msg': res[2], 'site': mergelib.LAST_ERROR_SITE[0]})
                 elif len(ctx.cov['samples']) < 2 and res[2]:
                     ctx.sample({'scenario': kinds, 'strategy': a.key(), 'helper': md, 'decisions': len(res[2]), 'conflicts': sum(1 for d in res[2] if d.get('conflict'))})
     if note and not ctx.violations:
